@@ -160,9 +160,17 @@ def pyarray_spec(rng):
     return ['pyarray', tc, [1, 0, 100][:n]]
 
 
+MACHINE_EDGES = [2 ** 31 - 1, 2 ** 31, 2 ** 63 - 1, 2 ** 63, 2 ** 32, 2 ** 64, -2 ** 31, -2 ** 31 - 1, -2 ** 63, -2 ** 63 - 1, 2 ** 64 + 1, 10 ** 30]
+BIG_COUNT_OK = {'rol', 'ror', '__lshift__', '__rshift__', '__ilshift__', '__irshift__', 'cut', 'read', 'peek', 'readlist', 'peeklist', 'pop', 'insert',
+                '__getitem__', '__delitem__', '__setitem__', 'set', 'invert', 'all', 'any', 'bytealign'}
+
+
 def gen_arg(rng, pname, cname, L, method):
     """JSON-able spec for a parameter called pname of cname.method; L = current length of the receiver."""
     ints = [0, 1, -1, 2, 7, 8, 9, L, L - 1, L + 1, -L, -L - 1, L // 2, 64, 10 ** 5, -10 ** 5]
+    if pname in ('pos', 'start', 'end', 'count', 'key') or (pname in ('bits', 'n', 'i') and method in BIG_COUNT_OK):
+        # positions and counts at the edges of the machine integer types (never a size that would have to be allocated)
+        ints = ints + MACHINE_EDGES[:4] * 1 + [rng.choice(MACHINE_EDGES)]
     if pname in ('bs', 'prefix', 'suffix', 'delimiter', 'old', 'new', 'b'):
         r = rng.random()
         if r < 0.12:
